@@ -19,6 +19,7 @@ import (
 	"github.com/Fantom-foundation/lachesis-base/kvdb/memorydb"
 	"github.com/Fantom-foundation/lachesis-base/lachesis"
 	"github.com/Fantom-foundation/lachesis-base/utils/adapters"
+	"github.com/Fantom-foundation/lachesis-base/utils/cachescale"
 	"github.com/Fantom-foundation/lachesis-base/vecengine"
 	"github.com/Fantom-foundation/lachesis-base/vecfc"
 )
@@ -82,7 +83,7 @@ type Inst struct {
 	// listener policy of the application: mode 0 = ApplyEvent for every block, 1 = from the ListenN-th block of
 	// the instance's life on, 2 = for every other block (odd ones)
 	ListenMode, ListenN int
-	Flags               int // 1: nil EndBlock on non-sealing blocks; 2: one-byte HighestBefore/LowestAfter caches; 4: custom engine, no OnDropNotFlushed, no vector caches
+	Flags               int // 1: nil EndBlock on non-sealing blocks; 2: one-byte HighestBefore/LowestAfter caches; 4: custom engine, no OnDropNotFlushed, no vector caches; 8: vecfc.DefaultConfig (production-size) caches
 	totalBlocks         int
 	lastCrit string
 	keepIndex bool // the next mkLachesis reuses the application's DagIndexer object
@@ -116,6 +117,9 @@ func (in *Inst) storeCfg() abft.StoreConfig {
 
 func (in *Inst) idxCfg() vecfc.IndexConfig {
 	c := vecfc.LiteConfig()
+	if in.Flags&8 != 0 { // production-size vector caches
+		c = vecfc.DefaultConfig(cachescale.Identity)
+	}
 	c.Caches.ForklessCausePairs = in.cfg.FcCap
 	if in.Flags&2 != 0 { // every vector is evicted at once: all reads go to the epoch DB
 		c.Caches.HighestBeforeSeqSize = 1
